@@ -841,13 +841,16 @@ fn expected_durations(scn: &LoopScn, p: &Parsed, out: &LoopOut) -> Option<Vec<u1
             let s = p.by_thread.get(t)?.get(rr)?;
             let raw = conv(s.start_raw()?, s.end_raw()?, f);
             let idx = (rr - first) * t_eff + t;
-            let zero = divan::verif::AllocPlain::default();
-            let a = out.allocs.get(idx).and_then(|a| a.as_ref()).unwrap_or(&zero);
+            // Operation counts from the reference tally of the window (what
+            // the thread really did between the two timestamps), not from the
+            // stored allocation info, which has its own check.
+            let _ = idx;
+            let a = RefTally::fold(&s.win);
             let overhead = scn.overheads[0]
                 .saturating_mul(size)
-                .saturating_add(scn.overheads[1].saturating_mul(a.tallies[2].0 as u128))
-                .saturating_add(scn.overheads[2].saturating_mul(a.tallies[3].0 as u128))
-                .saturating_add(scn.overheads[3].saturating_mul(a.tallies[0].0 as u128 + a.tallies[1].0 as u128));
+                .saturating_add(scn.overheads[1].saturating_mul(a.t[2].0 as u128))
+                .saturating_add(scn.overheads[2].saturating_mul(a.t[3].0 as u128))
+                .saturating_add(scn.overheads[3].saturating_mul(a.t[0].0 as u128 + a.t[1].0 as u128));
             want.push(clamp(clamp(raw).saturating_sub(overhead)));
         }
     }
@@ -1081,11 +1084,17 @@ pub fn check_c05(scn: &LoopScn, r: &RunResult, out: &LoopOut) -> Vec<Violation> 
             for t in 0..t_eff {
                 for sm in p.by_thread.get(t).map(|x| x.as_slice()).unwrap_or(&[]) {
                     let Some(idx) = stored_index(sm.round, t, rounds, stored, t_eff) else { continue };
+                    // "the sum over the sample's inputs": over the inputs the
+                    // generator produced for this sample (what the counter
+                    // says about each is a pure function of its identity),
+                    // whether or not the library showed them to the counter.
                     let sum: u128 = sm
                         .pre
                         .iter()
+                        .chain(sm.win.iter())
+                        .chain(sm.post.iter())
                         .filter_map(|e| match e.kind {
-                            Ev::User(UserEv::Count { kind, value, .. }) if kind as usize == k => Some(value as u128),
+                            Ev::User(UserEv::Gen { id }) => Some(scn.counter_value(k, id) as u128),
                             _ => None,
                         })
                         .sum();
@@ -1095,6 +1104,39 @@ pub fn check_c05(scn: &LoopScn, r: &RunResult, out: &LoopOut) -> Vec<Violation> 
                             vs.push(v("counter_value", format!("sample {idx}: per-iteration counter {k} = {g}, sum over inputs / sample size = {want}")));
                         }
                     }
+                }
+            }
+        }
+    }
+    // The allocation figures kept for a sample are those of that very sample:
+    // the reference tally of what its thread did between its two timestamps.
+    if out.caller_panic.is_none() {
+        let t_eff = scn.eff_threads();
+        let rounds = rounds_of(&p, scn);
+        let stored = out.durations.len();
+        'outer: for t in 0..t_eff {
+            for sm in p.by_thread.get(t).map(|x| x.as_slice()).unwrap_or(&[]) {
+                if !sm.complete() {
+                    continue;
+                }
+                let Some(idx) = stored_index(sm.round, t, rounds, stored, t_eff) else { continue };
+                // ... and the sample size every figure is divided by is the
+                // number of calls the sample really made.
+                if sm.all_calls() as u64 != out.sample_size as u64 && !p.injected_panic {
+                    vs.push(v(
+                        "sample_size_figure",
+                        format!("stored sample {idx} (thread {t}, round {}) made {} calls, but the recorded sample size is {}", sm.round, sm.all_calls(), out.sample_size),
+                    ));
+                    break 'outer;
+                }
+                let reference = RefTally::fold(sm.win.iter());
+                let got = out.allocs.get(idx).and_then(|a| a.as_ref());
+                if let Some(d) = reference.diff(got) {
+                    vs.push(v(
+                        "alloc_of_sample",
+                        format!("allocation figures kept for stored sample {idx} (thread {t}, round {}) are not those of that sample: {d}", sm.round),
+                    ));
+                    break 'outer;
                 }
             }
         }
